@@ -586,7 +586,8 @@ func (t *tr) forStmt(x *ast.ForStmt) {
 		}
 	}
 	ordBefore := t.loopOrd
-	keep := t.loopHead(k, x.Pos(), func() {
+	// invariants are resolved in the scope of the loop body (variables of the init statement are visible there)
+	keep := t.loopHead(k, x.Body.Lbrace, func() {
 		bodyAll()
 	}, nil)
 	t.loopOrd = ordBefore
